@@ -4,7 +4,7 @@ import random
 from harness import common as C
 
 RULE_FILES = ["Rules/RealPrelude.v", "Rules/ScalarRules.v", "Rules/PolyRules.v", "Rules/Complex.v", "Containers/VSpace.v",
-              "Containers/VSpaceProof.v", "Array/Broadcast.v", "Array/Run01.v", "Array/MatMul.v", "Array/Index.v", "Array/Select.v", "Array/RunSel.v", "Rules/Stats.v", "Rules/StatsProof.v", "Array/RunStats.v", "Array/Bilinear.v", "Array/BilinearClosed.v", "Array/RunBil.v", "Rules/ComplexRing.v", "Array/RunBilC.v", "Array/Realified.v", "Array/RunReal.v", "Array/LinAlg.v", "Array/RunLin.v", "Array/BroadcastTie.v", "Array/Multilinear.v", "Array/MultilinearPair.v", "Array/RunMul.v"]
+              "Containers/VSpaceProof.v", "Array/Broadcast.v", "Array/Run01.v", "Array/MatMul.v", "Array/Index.v", "Array/Select.v", "Array/RunSel.v", "Rules/Stats.v", "Rules/StatsProof.v", "Array/RunStats.v", "Array/Bilinear.v", "Array/BilinearClosed.v", "Array/RunBil.v", "Rules/ComplexRing.v", "Array/RunBilC.v", "Array/Realified.v", "Array/RunReal.v", "Array/LinAlg.v", "Array/Det.v", "Array/RunLin.v", "Array/BroadcastTie.v", "Array/Multilinear.v", "Array/MultilinearPair.v", "Array/RunMul.v"]
 IMPORTS = ("From Coq Require Import List ZArith.\nImport ListNotations.\n"
            "From AG Require Import VSpace VSpaceProof Broadcast Run01 MatMul.\nLocal Open Scope Z_scope.\n")
 
@@ -383,7 +383,7 @@ def run(res, tier, seed, broken, props, with_bcast, containers=False):
         if err:
             broken = broken + [{"obligation": "multilinear correspondence failed to run", "log": err[-3000:]}]
     if set(props) & {"C01", "C04", "C05"}:
-        b, t, err = run_linalg(res, "la_" + props[0].lower(), seed, 210 if tier == "thorough" else 70)
+        b, t, err = run_linalg(res, "la_" + props[0].lower(), seed, 270 if tier == "thorough" else 90)
         bad, tie = bad + b, tie + t
         if err:
             broken = broken + [{"obligation": "linalg correspondence failed to run", "log": err[-3000:]}]
